@@ -138,7 +138,7 @@ func TestVerifC04(t *testing.T) {
 		"Ensure is treated as always enabled; Ensure visiting order owned through hook H2")
 	var cfgs []*erConfig
 	if r.Quick() {
-		cfgs = enumConfigs([]int{1, 2, 3}, scriptSpace{failDo: 1, failUndo: 1, specials: []script{sNoUndo, sRetryOnce, sWaitDone}, maxSpecial: 1}, false, []int{0, 2})
+		cfgs = enumConfigs([]int{1, 2, 3}, scriptSpace{failDo: 1, failUndo: 1, specials: []script{sNoUndo, sRetryOnce, sRetryAfter, sWaitDone}, maxSpecial: 1}, false, []int{0, 2})
 		cfgs = append(cfgs, enumConfigs([]int{3}, scriptSpace{failDo: 1, requireFail: true, specials: []script{sNoUndo}, maxSpecial: 1}, true, []int{0})...)
 	} else {
 		cfgs = enumConfigs([]int{1, 2, 3}, scriptSpace{failDo: 1, failUndo: 1, specials: []script{sNoUndo, sRetryOnce, sRetryAfter, sWaitDone}, maxSpecial: 1}, true, []int{0, 1, 2})
@@ -180,7 +180,7 @@ func TestVerifC04(t *testing.T) {
 					if !outcomes[false][o] && !computed && cfg.AbortResp != 2 {
 						computed = true
 						c2 := *cfg
-						c2.AbortResp = 2
+						c2.AbortMix = true // each dying handler answers as configured OR with Retry{} (interrupted by the crash)
 						y := &explorer{cfg: &c2, al: alphabet{resolve: true, advance: true}, newObs: func() observer { return orderObs{} }}
 						y.onProblem = func(path []erEvent, msg string) {}
 						y.onTerminal = func(w *world, path []erEvent) {
